@@ -106,3 +106,69 @@ class Static:
             if any(b in out for b in S.event_bases(self.spec, e['name'])):
                 idx.append(i)
         return idx
+
+
+def row_source_name(r):
+    return r['src'] if isinstance(r['src'], str) else r['src']['exit_pt'][0]
+
+
+def row_target_name(r):
+    t = r.get('tgt')
+    if t is None:
+        return row_source_name(r)       # internal row: stays in its source
+    if isinstance(t, str):
+        return t
+    if 'direct' in t:
+        return t['direct'][0]
+    return t['entry_pt'][0]
+
+
+def explicit_creation_list(m):
+    used = set()
+    for r in m['table']:
+        if isinstance(r['src'], str):
+            used.add(r['src'])
+        if isinstance(r.get('tgt'), str):
+            used.add(r['tgt'])
+    for reg in m['regions']:
+        used.add(reg[0])
+    return [s for s in S.state_order(m) if s not in used]
+
+
+def documented_ids(m, dialect):
+    """state ids of machine m computed from the documented numbering rule, independently of MSM.
+    back/back11 (internals.adoc): sources of the rows top-down, where transition-less initial states and
+    explicit_creation states count as source rows appended to the table; then targets top-down.
+    backmp11 (comment above generate_state_set): sources, targets, remaining initial states, explicit_creation."""
+    order = []
+
+    def add(s):
+        if s not in order:
+            order.append(s)
+    in_table = set()
+    for r in m['table']:
+        in_table.add(row_source_name(r))
+        in_table.add(row_target_name(r))
+    inits = [reg[0] for reg in m['regions']]
+    expl = explicit_creation_list(m)
+    if dialect == 'back':
+        for r in m['table']:
+            add(row_source_name(r))
+        for s in inits:
+            if s not in in_table:
+                add(s)
+        for s in expl:
+            if s not in in_table:
+                add(s)
+        for r in m['table']:
+            add(row_target_name(r))
+    else:
+        for r in m['table']:
+            add(row_source_name(r))
+        for r in m['table']:
+            add(row_target_name(r))
+        for s in inits:
+            add(s)
+        for s in expl:
+            add(s)
+    return {s: i for i, s in enumerate(order)}
